@@ -100,6 +100,8 @@ pub struct Provider {
     handle: tokio::task::JoinHandle<()>,
 }
 
+/// when set, a scripted provider whose script is used up goes on answering with its last entry (a provider that never stops)
+pub static REPEAT_LAST: std::sync::atomic::AtomicBool = std::sync::atomic::AtomicBool::new(false);
 pub static ABORTED: std::sync::atomic::AtomicU64 = std::sync::atomic::AtomicU64::new(0);
 
 impl Provider {
@@ -177,7 +179,13 @@ impl Provider {
                         r.len() - 1
                     };
                     // ---- scripted response
-                    let resp = if dynamic { Some(dynamic_resp(idx, &body)) } else { script.get(idx).cloned() };
+                    let resp = if dynamic {
+                        Some(dynamic_resp(idx, &body))
+                    } else if REPEAT_LAST.load(std::sync::atomic::Ordering::SeqCst) && idx >= script.len() {
+                        script.last().cloned()
+                    } else {
+                        script.get(idx).cloned()
+                    };
                     let resp = resp.unwrap_or_else(|| Resp {
                         status: 200,
                         content_type: "text/event-stream".into(),
